@@ -170,7 +170,16 @@ def _eval_in(col, case, d):
     if case["http"]:
         httpsim.serve(root)
         src_url = "http://sim/ds"
-    argv = [src_url, dst] + cli_flags(dst_st)
+    # the destination spelled as a path or as one of the URL forms the
+    # option documents ("URL/directory")
+    import urllib.parse
+    dst_arg = {"path": dst,
+               "file-url": "file://" + urllib.parse.quote(dst),
+               "precomputed-file-url": "precomputed://file://"
+               + urllib.parse.quote(dst)}[case.get("dst_form", "path")]
+    argv = [src_url, dst_arg] + cli_flags(dst_st)
+    if case.get("compresslevel") is not None:
+        argv += ["--compresslevel", str(case["compresslevel"])]
     if case["copy_info"]:
         argv.append("--copy-info")
     with np.errstate(all="ignore"):
@@ -305,6 +314,15 @@ def cases(tier):
                                     "dst_storage": dst_st,
                                     "dst_dtype": dst_dtype,
                                     "copy_info": copy_info})
+    # command-line spellings: destination as path / file:// URL /
+    # precomputed://file:// URL; --compresslevel omitted or 0..9
+    for i, c in enumerate(out):
+        form = ("path", "file-url", "precomputed-file-url")[(i // 2) % 3]
+        if form != "path":
+            c["dst_form"] = form
+        lvl = (None, 9, 0, 1, 6, None, 3, 8)[(i // 3) % 8]
+        if lvl is not None:
+            c["compresslevel"] = lvl
     return out
 
 
